@@ -103,6 +103,4 @@ MUTANTS = [
      "edits": [(CMSVC, "            self._degree = value\n            self._hamsys = None\n", "            self._degree = value\n")]},
     {"id": "c20-manifold-marker-not-restored", "property": "C20", "what": "the manifold's orbit-state marker is created lazily (not restored by load: the stored result is dropped by a round trip)",
      "edits": [(MANSVC, "        self._manifold_result = None\n        self._orbit_state_key = None\n", "        self._manifold_result = None\n")]},
-    {"id": "c20-make-key-drops-last-argument", "property": "C20", "what": "make_key drops its last argument",
-     "edits": [(BASESVC, "        hashable_args = [_make_hashable(arg) for arg in args]", "        hashable_args = [_make_hashable(arg) for arg in args[:-1]] if len(args) > 2 else [_make_hashable(arg) for arg in args]")]},
 ]
